@@ -20,7 +20,8 @@ EXPLANATION = (
     "truncated toward zero to the base precision, the quote entry's last write rounds it to the quote precision (after "
     "being re-derived from the truncated base), fees are rounded away from zero per symbol to that symbol's precision; "
     "repaid interest is truncated before it is debited. C08.4 truncate_decimal uses ROUND_DOWN, round_decimal quantises to "
-    "1e-precision. The numeric cap (sum of fills <= share x volume) rests on two lines of arithmetic read, not analysed."
+    "1e-precision. C08.5: no precision (an int) is ever used as a truth value in the modules that resolve and apply precisions "
+    "(0 decimals is valid), and every rounding call of OrderManager takes its precision from get_pair_info(pair). The numeric cap (sum of fills <= share x volume) rests on two lines of arithmetic read, not analysed."
 )
 TRUSTED = ["CPython ast parser", "sa.cfg", "sa.absint (shared exploration with C04)", "Decimal.quantize semantics"]
 
@@ -153,7 +154,104 @@ def rule_helpers(ctx: Ctx) -> None:
               "quantize(1e-precision)", "round_decimal no longer quantises to 1e-precision", key_text="round")
 
 
+PRECISION_MODULES = ("basana.backtesting.config", "basana.backtesting.order_mgr", "basana.backtesting.value_map", "basana.core.helpers",
+                     "basana.core.pair")
+
+
+def rule_precision_sources(ctx: Ctx) -> None:
+    """C08.5: the precisions used for rounding are the configured ones.
+
+    (a) 0 is a precision (whole units): no precision value (mypy type int / int | None) is used as a truth value in the modules that
+        resolve and apply precisions -- `if precision:` treats a configured 0 as 'not configured';
+    (b) the precision handed to round_decimal / truncate_decimal in OrderManager comes from the pair's PairInfo (base_precision for
+        the base symbol, quote_precision for the quote symbol), which is where Config lets an explicit pair configuration win."""
+    from .. import norm as N
+    n_tests = 0
+    for fn in ctx.repo.all_funcs():
+        if fn.module.modname not in PRECISION_MODULES:
+            continue
+        for node in C.walk_shallow(fn.node):
+            tests = []
+            if isinstance(node, (ast.If, ast.While, ast.IfExp, ast.Assert)):
+                tests.append(node.test)
+            elif isinstance(node, ast.comprehension):
+                tests.extend(node.ifs)
+            for t in tests:
+                ops = [t]
+                for x in ast.walk(t):
+                    if isinstance(x, ast.BoolOp):
+                        ops.extend(x.values)
+                    elif isinstance(x, ast.UnaryOp) and isinstance(x.op, ast.Not):
+                        ops.append(x.operand)
+                for o in ops:
+                    if isinstance(o, (ast.BoolOp, ast.Compare, ast.UnaryOp, ast.Call, ast.Constant)):
+                        continue
+                    n_tests += 1
+                    ty = (A.type_of(ctx, fn.module, o) or "").replace("builtins.", "")
+                    if ty in ("int", "int | None", "Optional[int]", "Union[int, None]"):
+                        ctx.bad("C08.5", "a precision is never used as a truth value (0 decimals is a valid precision)", fn, o,
+                                f"'{ast.unparse(o)}' of type {ty} is tested for truth: a configured precision of 0 is treated as 'not configured' and "
+                                "another precision (the default) is applied, so amounts are no longer multiples of the configured precision",
+                                key_text=f"truthy int {ast.unparse(o)[:40]}")
+    ctx.count("C08.5:truth tests inspected", n_tests)
+    ctx.ok("C08.5", f"truth tests in the precision-handling modules inspected ({n_tests}); none is on an int", None, None, "ok", key_text="truthy ints scanned")
+    # (b) provenance of the precision arguments in OrderManager
+    n_calls = 0
+    for meth in ("_round_balance_updates", "_round_fees"):
+        fn = ctx.func(f"{OM}.{meth}")
+        pi = [s.target.id for s in A.stores(fn) if isinstance(s.target, ast.Name) and hasattr(s.node, "value")
+              and N.canon(s.node.value).replace(" ", "") in (f"self._ctx.config.get_pair_info({fn.params[2]})",)]
+        for c in A.func_calls(fn, shallow=False):
+            if (A.call_name(c) or "").split(".")[-1] not in ("round_decimal", "truncate_decimal") or len(c.args) < 2:
+                continue
+            n_calls += 1
+            srcs = _precision_sources(fn, c.args[1])
+            full = f"self._ctx.config.get_pair_info({fn.params[2]})"
+            allowed = {f"{full}.base_precision", f"{full}.quote_precision"} | ({f"{pi[0]}.base_precision", f"{pi[0]}.quote_precision"} if pi else set())
+            okp = bool(srcs) and all(s_.replace(" ", "") in allowed for s_ in srcs)
+            ctx.check(okp, "C08.5", f"{meth}: the rounding precision comes from the pair's configuration", fn, c, f"{sorted(srcs)}",
+                      f"precision argument '{ast.unparse(c.args[1])}' is taken from {sorted(srcs) or 'an unrecognised source'}, not from "
+                      "get_pair_info(pair): an explicit pair precision no longer wins, fills / fees are rounded to another grid",
+                      key_text=f"{meth} precision source {ast.unparse(c.args[1])[:30]}")
+    ctx.floor("C08.5", "rounding calls in OrderManager", n_calls, 3)
+
+
+def _precision_sources(fn, e: ast.AST, depth: int = 0) -> set:
+    """Terminal expressions a precision argument can come from: through locals, and through iteration over a dict literal's values."""
+    from .. import norm as N
+    out: set = set()
+    if depth > 5:
+        return {"?"}
+    if isinstance(e, ast.Name) and e.id not in fn.params:
+        found = False
+        for s in A.stores(fn, shallow=False):
+            if not (isinstance(s.target, ast.Name) and s.target.id == e.id):
+                continue
+            found = True
+            if isinstance(s.node, (ast.For, ast.comprehension)) or isinstance(getattr(s.node, "iter", None), ast.AST):
+                it = s.node.iter
+                # for symbol, precision in D.items(): values of the dict literal D
+                if isinstance(it, ast.Call) and isinstance(it.func, ast.Attribute) and it.func.attr in ("items", "values"):
+                    d = N.expand(fn, it.func.value)
+                    if isinstance(d, ast.Dict):
+                        for v in d.values:
+                            out |= _precision_sources(fn, v, depth + 1)
+                        continue
+                out.add(f"<iteration over {ast.unparse(it)[:40]}>")
+            elif hasattr(s.node, "value") and s.node.value is not None and not isinstance(s.node, ast.AugAssign):
+                out |= _precision_sources(fn, s.node.value, depth + 1)
+            else:
+                out.add("?")
+        if not found:
+            out.add(e.id)
+        return out
+    if isinstance(e, ast.IfExp):
+        return _precision_sources(fn, e.body, depth + 1) | _precision_sources(fn, e.orelse, depth + 1)
+    return {N.canon(e)}
+
+
 def run(ctx: Ctx) -> None:
+    rule_precision_sources(ctx)
     rule_one_budget(ctx)
     rule_consumption(ctx)
     rule_quantisation(ctx)
